@@ -54,6 +54,10 @@ def cfgs_for(d, p, tier):
     for ent in ['coneqp'] + (['qp'] if only_l else []):
         out.append({'entry': ent, 'storage': 'dense', 'kkt': None, 'opts': {'feastol': 1e-9, 'abstol': 1e-9, 'reltol': 1e-9}})
         out.append({'entry': ent, 'storage': 'dense', 'kkt': None, 'opts': {'maxiters': 2}})
+    # option sets that arrive through solvers.options (no options= keyword), one right behind a loose per-call call
+    for ent in ['coneqp'] + (['qp'] if only_l else []):
+        out.append({'entry': ent, 'storage': 'dense', 'kkt': None, 'via': 'global', 'opts': {'feastol': 1e-9, 'abstol': 1e-9, 'reltol': 1e-9}})
+        out.append({'entry': ent, 'storage': 'sparse', 'kkt': None, 'via': 'global', 'prelude': LOOSE})
     if only_l:
         for st in ('dense', 'sparse'):
             out.append({'entry': 'qp', 'storage': st, 'kkt': None})
